@@ -43,7 +43,7 @@ def run(tier):
                "processes with different environments, on both back-ends. distinct_nontrivial = distinct inputs whose outcome has >=2 diagnostics or whose "
                "expansion has >=2 impls (single-message / single-impl inputs cannot be reordered and count as trivial).")
     g = xgen.G(common.rng_for("C19", tier))
-    nvalid, nfault = (300, 500) if tier == "quick" else (6000, 14000)
+    nvalid, nfault = (600, 1200) if tier == "quick" else (6000, 14000)
     items = [xgen.gen(g) for _ in range(nvalid)] + multi_fault_items(g, nfault)
     srcs = [it.render() for it in items]
     envs = [None, {"LANG": "tr_TR.UTF-8", "TZ": "Asia/Kathmandu", "O2O_RANDOM_VAR": str(g.r.random())},
